@@ -111,7 +111,7 @@ def validate_native(n):
 
 def run() -> int:
     t = tier()
-    Ns = [4] if t == "quick" else [4, 5]
+    Ns = [4]  # N = 5 (25-node universe with the latent names) does not finish within half an hour; the thorough tier deepens the Evans queries instead
     timeout_ms = 120000 if t == "quick" else 900000
     rep = Report(PROP, "model_checking")
     rep.functions = [
